@@ -247,6 +247,27 @@ def burst_points():
     return out
 
 
+def repeated_crash_points():
+    """The server is crashed, and crashed again while it is down (same name twice; name, then a
+    regex set containing it; the regex set twice), at every step index; peers keep connecting
+    and writing to it afterwards; sometimes it is bounced at the end."""
+    out = []
+    pairs = [({"h": 0}, {"h": 0}), ({"h": 0}, {"re": "^n[03]$"}), ({"re": "^n[03]$"}, {"re": "^n[03]$"}),
+             ({"ip": 0}, {"re": "^n0$"})]
+    for pi, (first, second) in enumerate(pairs):
+        for i in range(0, 16):
+            for gap in (0, 2):
+                for cap, lat in ((64, 1), (2, 2)):
+                    if (i + gap + pi) % 2 and cap == 2:
+                        continue
+                    ev = [["step"]] * i + [["crash", first]] + [["step"]] * gap + [["crash", second]] + [["step"]] * 16
+                    if (i + pi) % 3 == 0:
+                        ev += [["bounce", {"h": 0}]] + [["step"]] * 8
+                    ev += [["probe"]]
+                    out.append(mk_case(ev, 1, lat, 90 + i, False, flavour="crash-repeated", cap=cap))
+    return out
+
+
 def multicast_points():
     """One, two and three members of the group 239.1.1.1:9100 (n0 always, n2 / n3
     optionally): crash / bounce ONE member at every step index; bounce without crash too."""
